@@ -26,10 +26,142 @@ SCALARS = [
     ("openN1EmptyShortHash", "details/HashBucketOpenN1.h", r"static const uint8_t emptyShortHash = (\d+);", ""),
     ("openN1MantMask", "details/HashBucketOpenN1.h", r"return \(size_t\{maxProbeExp\} & (\d+)\) << \(maxProbeExp >> 3\);", "pvGetMaxProbe mantissa mask"),
     ("logStartBucketCount", "details/BucketUtility.h", r"static const size_t logStartBucketCount = (\d+);", ""),
+    # ---- C16: UIntMath::Log2 (de Bruijn) and SegmentedArraySettings index arithmetic
+    ("log2Mul64", "Utility.h", r"return tab64\[\(value \* UInt\{(0x[0-9A-Fa-f]+)\}\) >> \d+\];", "pvLog2 (8-byte UInt): de Bruijn multiplier"),
+    ("log2Shift64", "Utility.h", r"return tab64\[\(value \* UInt\{0x[0-9A-Fa-f]+\}\) >> (\d+)\];", "pvLog2 (8-byte UInt): final shift"),
+    ("log2Mul32", "Utility.h", r"return tab32\[\(value \* UInt\{(0x[0-9A-Fa-f]+)\}\) >> \d+\];", "pvLog2 (4-byte UInt): de Bruijn multiplier"),
+    ("log2Shift32", "Utility.h", r"return tab32\[\(value \* UInt\{0x[0-9A-Fa-f]+\}\) >> (\d+)\];", "pvLog2 (4-byte UInt): final shift"),
+    ("segSqrtLogAdd", "SegmentedArray.h", r"return \(internal::UIntMath<>::Log2\(index1\) \+ (\d+)\) / \d+;", "sqrt pvIndexToLogItemCount: (Log2(index1) + this) / segSqrtLogDiv"),
+    ("segSqrtLogDiv", "SegmentedArray.h", r"return \(internal::UIntMath<>::Log2\(index1\) \+ \d+\) / (\d+);", "sqrt pvIndexToLogItemCount divisor"),
+    ("segSqrtSegMul", "SegmentedArray.h", r"return internal::UIntMath<>::Log2\(\(segIndex \* (\d+) \+ \d+\) / \d+\);", "sqrt pvSegIndexToLogItemCount: Log2((segIndex * this + add) / div)"),
+    ("segSqrtSegAdd", "SegmentedArray.h", r"return internal::UIntMath<>::Log2\(\(segIndex \* \d+ \+ (\d+)\) / \d+\);", "sqrt pvSegIndexToLogItemCount addend"),
+    ("segSqrtSegDiv", "SegmentedArray.h", r"return internal::UIntMath<>::Log2\(\(segIndex \* \d+ \+ \d+\) / (\d+)\);", "sqrt pvSegIndexToLogItemCount divisor"),
+    ("segSqrtSegBias", "SegmentedArray.h", r"segIndex = \(index1 >> logItemCount\) \+ \(size_t\{1\} << logItemCount\) - (\d+);", "sqrt GetSegItemIndexes: segIndex = (index1 >> k) + (1 << k) - this"),
+    ("segSqrtIdxBias", "SegmentedArray.h", r"size_t index1 = \(\(segIndex \+ (\d+) - \(size_t\{1\} << logItemCount\)\) << logItemCount\) \+ itemIndex1;", "sqrt GetIndex: index1 = ((segIndex + this - (1 << k)) << k) + itemIndex1"),
+    ("segDefaultLogCnst", "SegmentedArray.h", r"\(tItemCountFunc == SegmentedArrayItemCountFunc::cnst\) \? (\d+) : \d+>", "default logInitialItemCount of the cnst sizing"),
+    ("segDefaultLogSqrt", "SegmentedArray.h", r"\(tItemCountFunc == SegmentedArrayItemCountFunc::cnst\) \? \d+ : (\d+)>", "default logInitialItemCount of the sqrt sizing"),
+    # ---- C05: ArraySettings::GrowCapacity
+    ("arrGrowTinyLimit", "Array.h", r"if \(capacity <= (\d+)\)\s*newCapacity = \d+;", "GrowCapacity: capacity <= this -> arrGrowTinyCap"),
+    ("arrGrowTinyCap", "Array.h", r"if \(capacity <= \d+\)\s*newCapacity = (\d+);", "GrowCapacity: new capacity of tiny arrays"),
+    ("arrGrowDoubleLimit", "Array.h", r"else if \(capacity <= (\d+)\)\s*newCapacity = capacity \* \d+;", "GrowCapacity: capacity <= this -> capacity * arrGrowFactor"),
+    ("arrGrowFactor", "Array.h", r"else if \(capacity <= \d+\)\s*newCapacity = capacity \* (\d+);", "GrowCapacity: factor of the doubling range"),
+    ("arrGrowLinLimit", "Array.h", r"else if \(linear \|\| capacity < (\d+)\)", "GrowCapacity: linear || capacity < this -> capacity + arrGrowLinStep"),
+    ("arrGrowLinStep", "Array.h", r"else if \(linear \|\| capacity < \d+\)\s*newCapacity = capacity \+ (\d+);", "GrowCapacity: linear step"),
+    ("arrGrowExpDiv", "Array.h", r"newCapacity = capacity \+ \(capacity / (\d+)\) \* \d+;", "GrowCapacity: capacity + (capacity / this) * arrGrowExpMul"),
+    ("arrGrowExpMul", "Array.h", r"newCapacity = capacity \+ \(capacity / \d+\) \* (\d+);", "GrowCapacity: multiplier of the exponential range"),
+    # ---- C18: DataColumn.h (StrHasher, DataColumnTraits::GetVertices, DataColumnList::pvAdd / pvFillAddends)
+    ("colFnvBasis", "DataColumn.h", r"static const uint64_t fnvBasis64 = (\d+)ull;", "StrHasher: FNV-1a offset basis"),
+    ("colFnvPrime", "DataColumn.h", r"static const uint64_t fnvPrime64 = (\d+)ull;", "StrHasher: FNV-1a prime"),
+    ("colLogVertexMin", "DataColumn.h", r"MOMO_STATIC_ASSERT\((\d+) <= logVertexCount && logVertexCount < \d+\);", "DataColumnTraits: smallest legal logVertexCount"),
+    ("colLogVertexLim", "DataColumn.h", r"MOMO_STATIC_ASSERT\(\d+ <= logVertexCount && logVertexCount < (\d+)\);", "DataColumnTraits: logVertexCount < this"),
+    ("colMaxColumnLogSub", "DataColumn.h", r"static const size_t maxColumnCount = size_t\{1\} << \(logVertexCount - (\d+)\);", "maxColumnCount = 1 << (logVertexCount - this)"),
+    ("colMaxCodeParam", "DataColumn.h", r"static const size_t maxCodeParam = (\d+);", "pvAdd: last code parameter tried"),
+    ("colWideCodeBytes", "DataColumn.h", r"if \(sizeof\(ColumnCode\) > (\d+)\)", "GetVertices: codes wider than this fold their high half in"),
+    ("colShortShiftHi", "DataColumn.h", r"static_cast<uint64_t>\(columnCode\) >> (\d+)\)", "GetVertices: shortCode += code >> this"),
+    ("colShortShiftMid", "DataColumn.h", r"shortCode \+= shortCode >> (\d+);\s*if \(logVertexCount <", "GetVertices: shortCode += shortCode >> this"),
+    ("colShortLogLim", "DataColumn.h", r"if \(logVertexCount < (\d+)\)\s*shortCode \+= shortCode >>", "GetVertices: extra fold when logVertexCount < this"),
+    ("colShortShiftLo", "DataColumn.h", r"if \(logVertexCount < \d+\)\s*shortCode \+= shortCode >> (\d+);", "GetVertices: extra fold shift"),
+    ("colParamShift", "DataColumn.h", r"\^ \(codeParam >> (\d+)\);", "GetVertices: vertex1 ^= codeParam >> this"),
+    ("colParamMask", "DataColumn.h", r"\^ \(codeParam & (\d+)\);", "GetVertices: vertex2 ^= codeParam & this"),
+    ("colRootShiftSub", "DataColumn.h", r"addends\[v\] = size_t\{1\} << \(8 \* sizeof\(size_t\) - (\d+)\);", "pvFillAddends: root addend = 1 << (64 - this)"),
+    ("colMaxEdgeMul", "DataColumn.h", r"static const size_t maxEdgeCount = (\d+) \* maxColumnCount;", "Graph: edge storage = this * maxColumnCount"),
+    ("colMutRound", "DataColumn.h", r"mMutableOffsets\.SetCount\(\(offset \+ (\d+)\) / \d+, uint8_t\{0\}\);", "pvAdd: mutable-bit bytes = (offset + this) / colMutDiv"),
+    ("colMutDiv", "DataColumn.h", r"mMutableOffsets\.SetCount\(\(offset \+ \d+\) / (\d+), uint8_t\{0\}\);", "pvAdd: mutable-bit bytes divisor"),
+    # ---- C17: HashSorter.h / RadixSorter.h
+    ("hsStepLog1", "HashSorter.h", r"return \(count < 1 << (\d+)\) \? 0 :", "pvGetStepCount: count < 2^this -> 0 extra interpolation steps"),
+    ("hsStepLog2", "HashSorter.h", r"\? 0 : \(count < 1 << (\d+)\) \? 1 :", "pvGetStepCount: count < 2^this -> 1"),
+    ("hsStepLog3", "HashSorter.h", r"\? 1 : \(count < 1 << (\d+)\) \? 2 : 3;", "pvGetStepCount: count < 2^this -> 2, else 3"),
+    ("hsHalfSizeFactor", "HashSorter.h", r"static const size_t halfSize = (\d+) \* sizeof\(HashCode\);", "pvMultShift: halfSize = this * sizeof(HashCode) bits"),
+    ("rsDefaultRadixSize", "RadixSorter.h", r"template<size_t tRadixSize = (\d+)>", "RadixSorter<>: default radix size (the one HashSorter uses)"),
+    ("rsMaxRadixSize", "RadixSorter.h", r"MOMO_STATIC_ASSERT\(0 < radixSize && radixSize <= (\d+)\);", "largest legal radix size"),
+    ("rsSelDiv", "RadixSorter.h", r"selectionSortMaxCount = size_t\{1\} << \(radixSize / (\d+) \+ \d+\);", "selectionSortMaxCount = 1 << (radixSize / this + rsSelAdd)"),
+    ("rsSelAdd", "RadixSorter.h", r"selectionSortMaxCount = size_t\{1\} << \(radixSize / \d+ \+ (\d+)\);", "selectionSortMaxCount addend"),
+    # ---- C09: MemPool.h limits and layout constants
+    ("poolBlockCountLimit", "MemPool.h", r"return 0 < blockCount && blockCount < (\d+);", "CheckBlockCount: blockCount < this"),
+    ("poolMaxBlockAlignment", "MemPool.h", r"return 0 < blockAlignment && blockAlignment <= (\d+);", "CheckBlockAlignment: blockAlignment <= this"),
+    ("poolMinSizeRatio", "MemPool.h", r"Params::blockSize / Params::blockAlignment >= (\d+)\)", "pvCheckParams: blockSize / blockAlignment >= this when blockCount > 1"),
+    ("poolCorrectSmallMul", "MemPool.h", r"\(blockSize <= blockAlignment\) \? (\d+) \* blockAlignment", "CorrectBlockSize: small sizes become this * blockAlignment"),
+    ("poolOffsetLimit1", "MemPool.h", r"MOMO_ASSERT\(offset < (\d+)\);", "pvNewBlock1: alignment offset stored in a uint16_t"),
+    ("poolBeginOffsetLog", "MemPool.h", r"MOMO_ASSERT\(beginOffset < \(1 << (\d+)\)\);", "pvNewBuffer: beginOffset < 2^this (stored in a uint16_t)"),
+    ("poolFreeTerminator", "MemPool.h", r"pvSetNextFreeBlockIndex\(block, int8_t\{-(\d+)\}\);", "pvNewBuffer: the last free block links to -this"),
+    ("poolBufSizeAlignMul", "MemPool.h", r"\+ \((\d+) \+ \(Params::blockSize / Params::blockAlignment\) % 2\) \* Params::blockAlignment", "pvGetBufferSize: (this + (S/A) % 2) * A spare bytes"),
+    # ---- C12: hash-probe bytes of LimP4 / Open2N2 (stored hash bits reused on growth)
+    ("limp4MaskEmpty", "details/HashBucketLimP4.h", r"static const uint8_t maskEmpty = (\d+);", "marker bit of a hash-probe byte; short hashes are below it"),
+    ("limp4EmptyHashProbe", "details/HashBucketLimP4.h", r"static const uint8_t emptyHashProbe = (\d+);", ""),
+    ("limp4LogStep", "details/HashBucketLimP4.h", r"static const size_t logBucketCountStep = (\d+);", ""),
+    ("limp4LogAddend", "details/HashBucketLimP4.h", r"static const size_t logBucketCountAddend = (\d+);", ""),
+    ("limp4ShortHashBits", "details/HashBucketLimP4.h", r"static const size_t hashCodeShift = sizeof\(size_t\) \* 8 - (\d+);", "hashCodeShift = 64 - this"),
+    ("limp4BaseHashCount", "details/HashBucketLimP4.h", r"static const size_t hashCount = (\d+) \+", "hashCount = this + (8 - pointer bytes)"),
+    ("open2n2ProbeShiftExtra", "details/HashBucketOpen2N2.h", r"return \(logBucketCount \+ logBucketCountAddend \+ (\d+)\) % logBucketCountStep;", "pvGetProbeShift: (L + addend + this) % step"),
+    ("open2n2HashShiftAddend", "details/HashBucketOpen2N2.h", r"static const size_t hashCodeShift = sizeof\(size_t\) \* 8 - sizeof\(ShortHash\) \* 8 \+ (\d+);", "hashCodeShift = 64 - 8*sizeof(ShortHash) + this"),
+    # ---- C02: details/TreeNode.h (default TreeNode<> arguments, leaf pools, GetSplitItemIndex)
+    ("treeDefaultMaxCapacity", "details/TreeNode.h", r"template<size_t tMaxCapacity = (\d+),", "TreeNode<>: default maxCapacity"),
+    ("treeStepThreshold", "details/TreeNode.h", r"size_t tCapacityStep = \(tMaxCapacity >= (\d+)\) \? tMaxCapacity / \d+ : \d+,", "TreeNode<>: default capacityStep = (maxCapacity >= this) ? maxCapacity / treeStepDivisor : treeStepSmall"),
+    ("treeStepDivisor", "details/TreeNode.h", r"size_t tCapacityStep = \(tMaxCapacity >= \d+\) \? tMaxCapacity / (\d+) : \d+,", "TreeNode<>: default capacityStep divisor"),
+    ("treeStepSmall", "details/TreeNode.h", r"size_t tCapacityStep = \(tMaxCapacity >= \d+\) \? tMaxCapacity / \d+ : (\d+),", "TreeNode<>: default capacityStep of small nodes"),
+    ("treeBlockThreshold", "details/TreeNode.h", r"typename TMemPoolParams = MemPoolParams<\(tMaxCapacity < (\d+)\) \? \d+ : \d+>,", "TreeNode<>: default pool blockCount = (maxCapacity < this) ? treeBlockCountSmall : treeBlockCountLarge"),
+    ("treeBlockCountSmall", "details/TreeNode.h", r"typename TMemPoolParams = MemPoolParams<\(tMaxCapacity < \d+\) \? (\d+) : \d+>,", "TreeNode<>: default pool blockCount of small nodes"),
+    ("treeBlockCountLarge", "details/TreeNode.h", r"typename TMemPoolParams = MemPoolParams<\(tMaxCapacity < \d+\) \? \d+ : (\d+)>,", "TreeNode<>: default pool blockCount of large nodes"),
+    ("treeMaxCapacityLimit", "details/TreeNode.h", r"MOMO_STATIC_ASSERT\(0 < maxCapacity && maxCapacity < (\d+)\);", "Node: maxCapacity < this (count is a uint8_t)"),
+    ("treeLeafPoolDivisor", "details/TreeNode.h", r"static const size_t leafMemPoolCount = maxCapacity / \((\d+) \* capacityStep\) \+ 1;", "Node: leafMemPoolCount = maxCapacity / (this * capacityStep) + 1"),
+    ("treeSplitDivisor", "details/TreeNode.h", r"size_t splitItemIndex = itemCount / (\d+);", "GetSplitItemIndex: itemCount / this"),
+    ("treeSplitModulus", "details/TreeNode.h", r"if \(itemCount % (\d+) == 0 && splitItemIndex > newItemIndex\)", "GetSplitItemIndex: one less when itemCount % this == 0 and the new item goes left"),
 ]
 
 TABLES = [
+    # ---- C16: de Bruijn tables and smear shift lists of UIntMath::pvLog2
+    ("log2Tab64", "Utility.h", r"static const UInt tab64\[64\] =\s*\{([^}]*)\}", "pvLog2 (8-byte UInt) table"),
+    ("log2Tab32", "Utility.h", r"static const UInt tab32\[32\] =\s*\{([^}]*)\}", "pvLog2 (4-byte UInt) table"),
+    ("log2Smear64", "Utility.h", r"tab64\[64\] =\s*\{[^}]*\};\s*((?:value \|= value >> \d+;\s*)+)value -= value >> 1;\s*return tab64", "pvLog2 (8-byte UInt): shifts of the `value |= value >> s` lines, followed by `value -= value >> 1`"),
+    ("log2Smear32", "Utility.h", r"tab32\[32\] =\s*\{[^}]*\};\s*((?:value \|= value >> \d+;\s*)+)return tab32", "pvLog2 (4-byte UInt): shifts of the `value |= value >> s` lines (no isolate step)"),
 ]
+
+# SHAPES (C19): the *shape* of a piece of source the model mirrors statement by statement.
+#   ("body",  lean name, header, regex of the function signature, expected body, doc): the brace-enclosed body that follows
+#             the signature, whitespace-normalised, must equal `expected` exactly -> `def name : Nat := 1`
+#   ("count", lean name, header, regex, expected count, doc): number of matches in the comment-stripped header
+#             must equal `expected` -> `def name : Nat := count`
+# Anything else is reported as `missing` (the obligation "the model mirrors the code" can no longer be re-checked).
+SHAPES = [
+    # ---- C19: lock-free hand-off of detached rows (DataRow.h / DataTable.h), default (seq_cst) memory orders
+    ("body", "rowDtorShape", "DataRow.h", r"~DataRow\(\) noexcept",
+     "if (mRaw == nullptr) return; mColumnList->DestroyRaw(nullptr, mRaw); void* raw = mRaw; while (true) { "
+     "void* headRaw = *mFreeRaws; MemCopyer::ToBuffer(headRaw, raw); "
+     "if (mFreeRaws->compare_exchange_weak(headRaw, raw)) break; }",
+     "~DataRow: DestroyRaw, then a loop of one atomic load, one link write, one compare_exchange_weak (default order)"),
+    ("body", "tableTakeAllShape", "DataTable.h", r"void pvDeallocateFreeRaws\(\) noexcept",
+     "void* headRaw = mCrew.GetFreeRaws().exchange(nullptr); while (headRaw != nullptr) { "
+     "void* nextRaw = internal::MemCopyer::FromBuffer<void*>(headRaw); mRawMemPool.Deallocate(headRaw); headRaw = nextRaw; }",
+     "pvDeallocateFreeRaws: one exchange(nullptr) (default order), then walk: read link, Deallocate, advance"),
+    ("body", "tableAllocRawShape", "DataTable.h", r"Raw\* pvAllocateRaw\(\)",
+     "if (mCrew.GetFreeRaws() != nullptr) pvDeallocateFreeRaws(); return mRawMemPool.template Allocate<Raw>();",
+     "pvAllocateRaw: atomic load of the head, take-all when non-null, then pool.Allocate"),
+    ("count", "rowFreeRawsAtomicTypedef", "DataRow.h", r"typedef std::atomic<void\*> FreeRaws;", 1, "DataRow::FreeRaws is std::atomic<void*>"),
+    ("count", "tableFreeRawsAtomicTypedef", "DataTable.h", r"typedef std::atomic<void\*> FreeRaws;", 1, "DataTable::FreeRaws is std::atomic<void*>"),
+    ("count", "rowExplicitMemoryOrders", "DataRow.h", r"memory_order", 0, "no explicit (weaker) memory order in DataRow.h"),
+    ("count", "tableExplicitMemoryOrders", "DataTable.h", r"memory_order", 0, "no explicit (weaker) memory order in DataTable.h"),
+    ("count", "rowFreeRawsUses", "DataRow.h", r"\bmFreeRaws\b", 9, "every use of DataRow::mFreeRaws (ctor/move/swap/dtor) is accounted for"),
+    ("count", "tableFreeRawsUses", "DataTable.h", r"GetFreeRaws\(\)|\bfreeRaws\b", 7, "every use of Crew::freeRaws is accounted for"),
+]
+
+
+def body_after(text, sig):
+    """whitespace-normalised contents of the first brace block that follows a match of `sig`, or None"""
+    m = re.search(sig, text)
+    if not m:
+        return None
+    i = text.find("{", m.end())
+    if i < 0 or text[m.end():i].strip():
+        return None
+    depth = 0
+    for j in range(i, len(text)):
+        if text[j] == "{":
+            depth += 1
+        elif text[j] == "}":
+            depth -= 1
+            if depth == 0:
+                return " ".join(text[i + 1:j].split())
+    return None
 
 
 def strip_cpp_comments(s):
@@ -70,6 +202,23 @@ def generate(repo):
         vals = [int(x, 0) for x in re.findall(r"0x[0-9a-fA-F]+|\d+", m.group(1))]
         out.append("/-- %s: %s -/" % (rel, doc))
         out.append("def %s : List Nat := [%s]" % (name, ", ".join(str(v) for v in vals)))
+    for kind, name, rel, pat, expected, doc in SHAPES:
+        try:
+            text = src(rel)
+        except FileNotFoundError:
+            text = None
+        if text is None:
+            got = None
+        elif kind == "body":
+            got = 1 if body_after(text, pat) == expected else None
+        else:
+            got = len(re.findall(pat, text))
+            got = got if got == expected else None
+        if got is None:
+            missing.append("%s (%s: shape changed)" % (name, rel))
+            continue
+        out.append("/-- %s: %s -/" % (rel, doc))
+        out.append("@[reducible] def %s : Nat := %d" % (name, got))
     out += ["", "end Momo.Extracted", ""]
     return "\n".join(out), missing
 
